@@ -61,11 +61,15 @@ TEMPLATES = (
     'a[b:c, d] = e.f.g(h)[i]',
     'type T[U] = list[U]\ndef f[V](): pass',
     'if a: b; c\nd; e',
+    'def f(p):\n    r = [i for i in [j for j in p] if i]\n    return r',
+    'def f(p):\n    r = [i for i in (lambda q=p: q) if i]\n    return r',
+    'class C:\n    x = {k: v for k, v in d if k}\n    y = (lambda a=x: a)',
+    'def f():\n    g = (i for i in (j for j in z))\n    return g, [w := u for u in v]',
 )
 
 ON = ('enter', 'leave', 'both')
 ACTIONS = ('nothing', 'remove_self', 'replace_self_leaf', 'replace_self_tree', 'remove_parent', 'replace_parent', 'remove_grand', 'remove_prev', 'replace_prev',
-           'remove_next', 'replace_next', 'insert_before', 'insert_after', 'send_false', 'send_true')
+           'remove_next', 'replace_next', 'insert_before', 'insert_after', 'send_false', 'send_true', 'replace_self_comp', 'replace_self_lambda')
 
 
 def settings_list():
@@ -227,6 +231,12 @@ def do_action(g, action, gen_, inserted):
 
             r = target.replace(code, norm=True)
             info['replacement'] = r
+        elif action in ('replace_self_comp', 'replace_self_lambda'):
+            if not isinstance(a, ast.expr) or isinstance(getattr(a, 'ctx', None), (ast.Store, ast.Del)):
+                raise Refused('no_code')
+
+            r = target.replace('[cq for cq in cw if cq]' if action == 'replace_self_comp' else '(lambda lp=ld: lp)', norm=True)
+            info['replacement'] = r
         elif action == 'replace_self_tree':
             code = tree_for(a)
 
@@ -303,6 +313,8 @@ def run_walk(root, setting, schedule, ctx, kind, desc):
     skip_desc = set()        # ids whose descendants must not be yielded (send(False))
     expect_next = None       # ('first_child_of', replacement FST) or ('alive_after', index in order_live)
     nactions = 0
+    got_seq = []
+    tail_from = None
 
     try:
         for item in gen_:
@@ -313,6 +325,7 @@ def run_walk(root, setting, schedule, ctx, kind, desc):
                 raise Violation('C15.termination', f'{desc}: walk yielded {yields} times for a tree of {n0} nodes (+{inserted[0]} inserted)', f'termination:{site}')
 
             a = g.a
+            got_seq.append(g)
 
             if a is None:
                 raise Violation('C15.dead_node', f'{desc}: walk yielded a dead node at yield {yields - 1}', f'dead:{site}')
@@ -427,8 +440,12 @@ def run_walk(root, setting, schedule, ctx, kind, desc):
                     if changed_at is None:
                         changed_at = idx
 
-                    if action in ('insert_before', 'insert_after', 'replace_self_tree', 'replace_self_leaf', 'replace_parent', 'replace_prev', 'replace_next'):
-                        inserted[0] += 4
+                    if action in ('insert_before', 'insert_after', 'replace_self_tree', 'replace_self_leaf', 'replace_parent', 'replace_prev', 'replace_next',
+                                  'replace_self_comp', 'replace_self_lambda'):
+                        inserted[0] += 8
+
+                    if len(schedule) == 1 and on == 'enter' and action.startswith('replace_self') and info.get('replacement') is not None:
+                        tail_from = (info['replacement'], len(got_seq))
 
                     if victim is not None and on == 'enter':
                         removed_ids |= victim_ids
@@ -456,6 +473,30 @@ def run_walk(root, setting, schedule, ctx, kind, desc):
         c01.check_invariant(root, None, 'C15.c01')
     except Violation as v:
         raise Violation('C15.c01', f'{desc}: final tree violates C01: {v.msg[:700]}', f'c01:{site}') from None
+
+    # "after replacing the current node its new children are walked next" and the walk goes on as usual: what was yielded after the replacement
+    # equals what a fresh walk of the final tree (same settings) yields after the replaced node
+    if tail_from is not None and tail_from[0].a is not None:
+        repl, k0 = tail_from
+
+        try:
+            fresh = list(root.walk(all_, **kw))
+        except Exception as exc:
+            raise Violation('C15.raise', f'{desc}: fresh walk of the final tree raised {exc!r}', f'raise_fresh:{type(exc).__name__}:{site}') from None
+
+        idx = next((i for i, x in enumerate(fresh) if x is repl), None)
+
+        if idx is not None:
+            want = [id(x.a) for x in fresh[idx + 1:]]
+            have = [id(x.a) for x in got_seq[k0:]]
+            ctx.count('replace_tails_compared')
+
+            if want != have:
+                j = next((j for j, (x, y) in enumerate(zip(want, have)) if x != y), min(len(want), len(have)))
+
+                raise Violation('C15.after_replace', f'{desc}: after the replacement the walk yielded {len(have)} more nodes, a fresh walk of the final tree yields {len(want)} after the '
+                                f'replaced node; first difference at #{j}: got {got_seq[k0 + j] if j < len(have) else None!r}, fresh {fresh[idx + 1 + j] if j < len(want) else None!r}',
+                                f'after_replace_tail:{site}')
 
     return changed_at is not None and yields_after_change > 0
 
